@@ -576,7 +576,10 @@ def appendRecord (f : FileData) : FileData :=
   { f with extraField := stripZip64 (f.extraField.length + 1) f.extraField }
 
 open M in
-/-- `ZipWriter::new_append`: device errors / archive errors are `M` errors; the ignored seek is ignored. -/
+/-- `ZipWriter::new_append`: device errors / archive errors are `M` errors.  The failure of the first seek to
+the directory start is mapped to `InvalidArchive` (`.is_err()`); the failure of the LAST seek — the one that
+repositions the writer onto the old central directory, which it is about to overwrite — is returned as the
+I/O error it is (`?`; D22: it used to be ignored, `let _ =`). -/
 def newAppend : M WState := do
   let (footer, cdeStart) ← findAndParseEocd
   if footer.diskNumber != footer.diskWithCd then throw .unsupportedArchive else do
@@ -596,7 +599,7 @@ def newAppend : M WState := do
           let rest ← loop n
           pure (appendRecord f :: rest)
       let files ← loop numberOfFiles
-      let _ ← attempt (seek (.start directoryStart))
+      let _ ← seek (.start directoryStart)
       pure { WState.init with files, comment := footer.comment, writingRaw := true }
 
 end ZipVerif.Model
